@@ -151,6 +151,8 @@ def gen_keys(rng: random.Random, schema: Schema, allow_empty: bool = True, max_k
                 ]
             )
             pool = [a for a in ["kk", "kb", "kz"] if a not in used]
+            if col not in used and rng.random() < 0.35:
+                pool = [col]  # the alias re-uses the name of the input column the expression is built from (bucketing "in place")
             if not pool or e in used_e:
                 continue
             keys.append([rng.choice(pool), e, ty, "expr"])
@@ -168,11 +170,19 @@ def gen_aggs(rng: random.Random, schema: Schema, taken: t.List[str]) -> t.List[l
         if c < 0.12 and ints:
             a = ("agg", rng.choice(["sum", "count", "countStar"]), ("col", rng.choice(ints)))
             b = ("agg", rng.choice(["count", "countStar", "sum"]), ("col", rng.choice(ints)))
+            if len(usable) >= 2 and rng.random() < 0.3:
+                b = ("cdn", [("col", col) for col, _ in rng.sample(usable, 2)])
             aggs.append([nm, ("abin", rng.choice(["add", "sub", "mul"]), a, b), "int"])
             continue
         if c < 0.18 and ints:
             a = ("agg", rng.choice(["sum", "max", "count"]), ("col", rng.choice(ints)))
             aggs.append([nm, ("abin", rng.choice(["add", "mul"]), a, ("alit", rng.choice([1, 2]))), "int"])
+            continue
+        if c < 0.32 and len(usable) >= 2:
+            # count_distinct over several columns / expressions: a row counts only if every argument is non-NULL
+            picked = rng.sample(usable, rng.choice([2, 2, 3]) if len(usable) >= 3 else 2)
+            args = [("col", col) if ty != "int" or rng.random() < 0.8 else ("bin", "add", ("col", col), ("lit", 1)) for col, ty in picked]
+            aggs.append([nm, ("cdn", args), "int"])
             continue
         fn = rng.choice(FNS)
         if fn == "countStar":
@@ -239,6 +249,8 @@ def agg_fns(e: t.Any) -> t.List[str]:
     e = tuple_(e)
     if e[0] == "agg":
         return [e[1]]
+    if e[0] == "cdn":
+        return [f"countDistinct/{len(e[1])}"]
     if e[0] == "abin":
         return agg_fns(e[2]) + agg_fns(e[3])
     return []
@@ -295,6 +307,8 @@ def aexpr_to_lean(e: t.Any) -> t.Any:
     e = tuple_(e)
     if e[0] == "agg":
         return {"agg": {"fn": e[1], "arg": X.to_lean(e[2])}}
+    if e[0] == "cdn":
+        return {"countDistinctN": {"args": [X.to_lean(a) for a in e[1]]}}
     if e[0] == "alit":
         return {"lit": {"v": vlib.lval(e[1])}}
     if e[0] == "abin":
@@ -338,6 +352,8 @@ def show_aexpr(e: t.Any) -> str:
         if e[1] == "countStar":
             return "count('*')"
         return {"countDistinct": "count_distinct"}.get(e[1], e[1]) + f"({X.show(e[2])})"
+    if e[0] == "cdn":
+        return "count_distinct(" + ", ".join(X.show(a) for a in e[1]) + ")"
     if e[0] == "alit":
         return f"lit({e[1]!r})"
     sym = {"add": "+", "sub": "-", "mul": "*"}[e[1]]
@@ -409,6 +425,9 @@ def to_agg_column(e: t.Any, F: t.Any) -> t.Any:
         if fn == "countDistinct":
             return F.countDistinct(arg)
         return getattr(F, fn)(arg)
+    if e[0] == "cdn":
+        cs = [X.to_column(a, F) for a in e[1]]
+        return F.countDistinct(*cs) if len(e[1]) % 2 else F.count_distinct(*cs)
     if e[0] == "alit":
         return F.lit(e[1])
     a, b = to_agg_column(e[2], F), to_agg_column(e[3], F)
@@ -648,6 +667,24 @@ def hand_cases() -> t.List[dict]:
     out.append({"schema": sch, "rows": rows, "steps": [{"k": "groupAgg", "keys": K, "aggs": [["t", ("agg", "sum", ("col", "x"))]]}, {"k": "where", "p": ("bin", "gt", ("col", "t"), ("lit", 2))}]})
     out.append({"schema": sch, "rows": rows, "steps": [{"k": "where", "p": ("bin", "gt", ("col", "x"), ("lit", 2))}, {"k": "groupAgg", "keys": K, "aggs": [cnt]}]})
     out.append({"schema": sch, "rows": rows, "steps": [{"k": "groupAgg", "keys": [["k", ("col", "k"), "name"], ["s", ("col", "s"), "name"]], "aggs": [cnt]}, {"k": "groupAgg", "keys": K, "aggs": [["t", ("agg", "sum", ("col", "c"))], ["n", ("agg", "countStar", ("lit", 1))]]}]})
+    # an aliased expression key whose alias is the name of an input column (several raw values per bucket)
+    for al in ("k", "x", "kk"):
+        bk = [[al, ("bin", "mul", ("col", "k"), ("lit", 0)), "expr"]]
+        out.append({"schema": sch, "rows": rows, "steps": [{"k": "groupAgg", "keys": bk, "aggs": [cnt, ["t", ("agg", "sum", ("col", "k"))]]}]})
+        out.append({"schema": sch, "rows": rows, "steps": [{"k": "count", "keys": bk}]})
+    # count_distinct over several columns: rows with a NULL in *some* argument must be skipped
+    psch = [["k", "int"], ["s", "str"], ["w", "str"], ["x", "int"]]
+    prows = [[1, "ann", "tea", 1], [1, "ann", "tea", 2], [1, "ann", None, 1], [1, None, "tea", None], [1, "bob", "tea", 1],
+             [2, None, None, None], [2, "cy", None, 3], [None, "dan", "jam", 1], [None, "dan", "jam", 1], [None, None, "jam", None]]
+    pairs = [["p", ("cdn", [("col", "s"), ("col", "w")])], ["q", ("cdn", [("col", "s"), ("col", "x"), ("col", "w")])],
+             ["d", ("agg", "countDistinct", ("col", "s"))], cnt]
+    for rws in (prows, []):
+        out.append({"schema": psch, "rows": rws, "steps": [{"k": "dfAgg", "aggs": pairs}]})
+        out.append({"schema": psch, "rows": rws, "steps": [{"k": "groupAgg", "keys": K, "aggs": pairs}]})
+        out.append({"schema": psch, "rows": rws, "steps": [{"k": "groupAgg", "keys": K, "aggs": [["z", ("abin", "sub", ("agg", "countStar", ("lit", 1)), ("cdn", [("col", "s"), ("col", "w")]))]]}]})
+    out.append({"schema": psch, "rows": prows, "steps": [{"k": "cube", "keys": K, "aggs": pairs}]})
+    out.append({"schema": psch, "rows": prows, "steps": [{"k": "groupAgg", "keys": K, "aggs": pairs}, {"k": "where", "p": ("bin", "eq", ("col", "p"), ("lit", 0))}]})
+    out.append({"schema": psch, "rows": prows, "steps": [{"k": "groupAgg", "keys": K, "aggs": pairs}, {"k": "dfAgg", "aggs": [["t", ("agg", "sum", ("col", "p"))], ["m", ("agg", "max", ("col", "q"))]]}]})
     # reuse of the receiver after a grouped call (receiver's last operation: where / none / select)
     W = {"k": "where", "p": ("not", ("isNull", ("col", "x")))}
     cube_cnt = {"k": "cube", "keys": K, "aggs": [["count", ("agg", "countStar", ("lit", 1))]], "via_count": True}
@@ -821,7 +858,7 @@ def run(ctx: Ctx) -> None:
         "PySpark's meaning of groupBy().agg / shortcuts / DataFrame.agg / cube is `aggSpec` / `cubeSpec`, shortcut names `fn(col)`, `count` (validated against live PySpark 3.5.9 during construction)",
         "avg is an exact rational in the model; the engine's DOUBLE is compared as a fraction with denominator <= 10^6",
         "the open aggregate block after `agg` is represented by its value under an identity projection (later operations either freeze it or append ORDER BY / LIMIT)",
-        "not modelled: dict form of agg, GROUPING_ID expansion, un-aliased expression keys / aggregates (their *names* belong to C10)",
+        "multi-column count_distinct counts distinct all-non-NULL tuples (C06_count_distinct_n); not modelled: multi-entry dict form of agg, GROUPING_ID expansion, un-aliased expression keys / aggregates (their *names* belong to C10)",
     ]
 
 
